@@ -124,9 +124,9 @@ func doqScenario(name string, o doqOpt, d int) vr.Scenario {
 	var conn *fqConn
 	var answers map[int][]byte
 	var answeredAt map[int]time.Duration
-	var finished bool
+	var finished, closeStarted bool
 	body := func() {
-		finished = false
+		finished, closeStarted = false, false
 		calls, answers, answeredAt = nil, map[int][]byte{}, map[int]time.Duration{}
 		ctx, cancel := vs.WithCancel(bg)
 		conn = &fqConn{ctx: ctx, cancel: cancel}
@@ -230,6 +230,7 @@ func doqScenario(name string, o doqOpt, d int) vr.Scenario {
 				c.streamIdx = len(conn.streams) - 1
 				r, err := re.ExchangeReserved(ctx, c.q)
 				c.done, c.err, c.retAt = true, err, vs.Elapsed()
+				c.refusedClosed = closeStarted // (field reused) the application's own Close had begun when the call returned
 				if r != nil {
 					c.resp = append([]byte(nil), (*r)...)
 					pool.ReleaseBuf(r)
@@ -238,7 +239,7 @@ func doqScenario(name string, o doqOpt, d int) vr.Scenario {
 		}
 		if o.closer {
 			wg.Add(1)
-			vs.GoNamed("closer", func() { defer wg.Done(); dc.Close() })
+			vs.GoNamed("closer", func() { defer wg.Done(); closeStarted = true; dc.Close() })
 		}
 		wg.Wait()
 		dc.Close()
@@ -276,7 +277,9 @@ func doqScenario(name string, o doqOpt, d int) vr.Scenario {
 					return V("foreign-reply", fmt.Sprintf("call %d returned bytes that are not the server's answer to its query (question in reply: %q)", c.idx, fk.QName(c.resp)))
 				}
 			}
-			if at, answered := answeredAt[c.streamIdx]; o.c02 && answered && x.EarlyTimers == 0 && !c.cancelled {
+			// (a call that is still pending when the application itself closes the connection
+			// may end with an error - C07 -, whatever has arrived for it)
+			if at, answered := answeredAt[c.streamIdx]; o.c02 && answered && x.EarlyTimers == 0 && !c.cancelled && !c.refusedClosed {
 				// C02: the complete reply was on the stream at `at`, the caller's context was live
 				live := true
 				if c.idx < len(o.ctxMode) && o.ctxMode[c.idx] == 1 && at >= c.startAt+3*time.Second {
